@@ -299,6 +299,18 @@ theorem c07_prune_sound (chunks : List Nat) (start stop : Nat) (h1 : start ≤ s
   · show (pruneAxisRaw chunks start stop).offset + (stop - (pruneAxisRaw chunks start stop).offset) = stop
     omega
 
+/-- whatever unit-step slice the caller writes (negative, open-ended, out of range, reversed),
+    `_prune_chunks` works on `0 ≤ start ≤ stop ≤ n`: the hypotheses of the theorems of this
+    section hold for every index `get_dask_array` accepts -/
+theorem c07_index_normalised_in_range (n : Nat) (a b c : Option Int) (s e : Nat)
+    (h : normPIx n a b c = .ok (.range s e)) : s ≤ e ∧ e ≤ n :=
+  normPIx_range n a b c s e h
+
+example : normPIx 6 (some (-4)) (some 100) none = .ok (.range 2 6) ∧
+    normPIx 6 (some 5) (some 2) (some 1) = .ok (.range 5 5) ∧
+    normPIx 6 none (some 6) none = .ok .full ∧
+    normPIx 6 none none (some 2) = .error .indexError := by decide
+
 /-- **a stored chunk is kept iff it overlaps the requested range** `[start, stop)`:
     `start < hi_i ∧ lo_i < stop` (for an empty range this is the chunk strictly containing the
     point, if any) -/
